@@ -7,20 +7,66 @@ theorem ok_fst {ε α β : Type} {a a' : α} {b b' : β}
     (h : (Except.ok (a, b) : Except ε (α × β)) = .ok (a', b')) : a = a' := by
   cases h; rfl
 
+/-- `c'` differs from `c` at most in the generator position -/
+def Ctr.SameButPos (c c' : Ctr) : Prop := c' = { c with pos := c'.pos }
+
+theorem Ctr.SameButPos.refl (c : Ctr) : c.SameButPos c := rfl
+theorem Ctr.SameButPos.mk (c : Ctr) (p : Pos) : c.SameButPos { c with pos := p } := rfl
+theorem Ctr.SameButPos.trans {a b c : Ctr} (h1 : a.SameButPos b) (h2 : b.SameButPos c) : a.SameButPos c := by
+  unfold Ctr.SameButPos at *
+  rw [h2, h1]
+
+/-- `seek` only starts operators and moves the position; it ends at a position with a tick to run -/
+theorem seek_spec (cfg : Cfg) (w : Store) (c : Ctr) (w' : Store) (c' : Ctr) (h : seek w cfg c = .ok (w', c')) :
+    Steps w w' ∧ c.SameButPos c' ∧
+    ∃ r allsegs rest sg io cpuT more, c'.pos.ops = (r, allsegs) :: rest ∧ c'.pos.started = true ∧
+      c'.pos.segs = (sg, io, cpuT) :: more ∧ c'.pos.i < io + cpuT := by
+  fun_induction seek w cfg c
+  case case1 => cases h
+  case case2 => cases h
+  case case3 ih =>
+    rename_i hw
+    obtain ⟨i1, i2, i3⟩ := ih h
+    exact ⟨(Steps.single hw).trans i1, Ctr.SameButPos.trans (Ctr.SameButPos.mk _ _) i2, i3⟩
+  case case4 ih =>
+    obtain ⟨i1, i2, i3⟩ := ih h
+    exact ⟨i1, Ctr.SameButPos.trans (Ctr.SameButPos.mk _ _) i2, i3⟩
+  case case5 =>
+    rename_i w0 c0 r allsegs rest hops hs sg io cpuT more hsg hlt
+    cases h
+    exact ⟨.refl _, rfl, r, allsegs, rest, sg, io, cpuT, more, hops, by simpa using hs, hsg, hlt⟩
+  case case6 ih =>
+    obtain ⟨i1, i2, i3⟩ := ih h
+    exact ⟨i1, Ctr.SameButPos.trans (Ctr.SameButPos.mk _ _) i2, i3⟩
+
+theorem runAt_steps {w w' : Store} {c c' : Ctr} {cons cons' : Int} {r : Nat} {last : Bool} {m : Nat}
+    (h : runAt w c cons r last m = .ok (w', c', cons')) : Steps w w' := by
+  unfold runAt at h
+  split at h
+  · rw [ok_fst h]; exact .refl _
+  · split at h
+    · split at h
+      · cases h
+      · rename_i hw
+        split at h <;> (rw [← ok_fst h]; exact Steps.single hw)
+    · rw [ok_fst h]; exact .refl _
+
+theorem runTick_steps {cfg : Cfg} {w w' : Store} {c c' : Ctr} {cons cons' : Int}
+    (h : runTick cfg w c cons = .ok (w', c', cons')) : Steps w w' := by
+  unfold runTick at h
+  split at h
+  · exact runAt_steps h
+  · cases h
+
 theorem advance_steps (cfg : Cfg) (w : Store) (c : Ctr) (cons : Int) (w' : Store) (c' : Ctr) (cons' : Int)
     (h : advance cfg w c cons = .ok (w', c', cons')) : Steps w w' := by
-  fun_induction advance cfg w c cons
-  case case1 => rw [ok_fst h]; exact .refl _
-  case case2 => cases h
-  case case3 => cases h
-  case case4 ih => rename_i hw _; exact (Steps.single hw).trans (ih h)
-  case case5 ih => exact ih h
-  case case6 => rw [ok_fst h]; exact .refl _
-  case case7 => cases h
-  case case8 => rw [← ok_fst h]; apply Steps.single; assumption
-  case case9 => rw [← ok_fst h]; apply Steps.single; assumption
-  case case10 => rw [ok_fst h]; exact .refl _
-  case case11 ih => exact ih h
+  unfold advance at h
+  split at h
+  · rw [ok_fst h]; exact .refl _
+  · split at h
+    · cases h
+    · rename_i hs
+      exact (seek_spec _ _ _ _ _ hs).1.trans (runTick_steps h)
 
 theorem tick_steps {cfg : Cfg} {w w' : Store} {c c' : Ctr} {cons cons' : Int}
     (h : c.tick cfg w cons = .ok (w', c', cons')) : Steps w w' := by
